@@ -124,6 +124,9 @@ def resolveSan (p : Pos) (s : String) : Option Mv :=
     let (cs, promoK) : List Char × UInt8 :=
       match cs.reverse with
       | x :: '=' :: rest => (rest.reverse, (kindOfLetter x).getD 255)
+      | x :: d :: rest =>
+        -- Texel writes promotions without '=' ("dxc8Q")
+        if d.isDigit && (kindOfLetter x).isSome then ((d :: rest).reverse, (kindOfLetter x).getD 255) else (cs, 0)
       | _ => (cs, 0)
     let (k, cs) : UInt8 × List Char :=
       match cs with
